@@ -1033,15 +1033,21 @@ impl CommitEnv for LsmCommitEnv {
 			Ok(()) => Ok(()),
 			Err(Error::ArenaFull) => {
 				// Arena is full - rotate memtable and retry
+				#[cfg(surrealkv_verif)]
+				crate::verif::yieldp::yield_point("apply.arena_full", batch.starting_seq_num, 0);
 				log::debug!("apply: arena full, rotating memtable");
 
 				self.core.rotate_memtable()?;
+				#[cfg(surrealkv_verif)]
+				crate::verif::yieldp::yield_point("apply.rotated", batch.starting_seq_num, 0);
 
 				// Schedule background flush
 				if let Some(ref task_manager) = self.task_manager {
 					task_manager.wake_up_memtable();
 				}
 
+				#[cfg(surrealkv_verif)]
+				crate::verif::yieldp::yield_point("apply.woke", batch.starting_seq_num, 0);
 				// Retry on new memtable - must succeed
 				let active_memtable = self.core.active_memtable.read()?;
 				self.relog_if_rotated(batch, written_to, &active_memtable)?;
@@ -1443,10 +1449,14 @@ impl Core {
 	/// Unlike `make_room_for_write`, this does NOT rotate the WAL before
 	/// flushing. This prevents creating an empty WAL file on clean shutdown.
 	pub async fn close(&self) -> Result<()> {
+		#[cfg(surrealkv_verif)]
+		crate::verif::yieldp::yield_point("close.start", 0, 0);
 		log::info!("Shutting down LSM tree...");
 
 		// Step 1: Shutdown the commit pipeline to stop accepting new writes
 		self.commit_pipeline.shutdown();
+		#[cfg(surrealkv_verif)]
+		crate::verif::yieldp::yield_point("close.pipe_shutdown", 0, 0);
 		log::debug!("Commit pipeline shutdown complete");
 
 		// Step 2: Signal write stall controller - wake any stalled writers
@@ -1458,6 +1468,8 @@ impl Core {
 		if let Some(task_manager) = task_manager {
 			log::debug!("Stopping background task manager...");
 			task_manager.stop().await;
+			#[cfg(surrealkv_verif)]
+			crate::verif::yieldp::yield_point("close.tasks_stopped", 0, 0);
 			log::debug!("Background task manager stopped");
 		}
 
@@ -1530,11 +1542,15 @@ impl Core {
 		})?;
 		log::debug!("Directory sync complete");
 
+		#[cfg(surrealkv_verif)]
+		crate::verif::yieldp::yield_point("close.synced", 0, 0);
 		// Step 7: Release the database lock
 		let mut lockfile = self.inner.lockfile.lock()?;
 		lockfile.release()?;
 
 		// Log final state
+		#[cfg(surrealkv_verif)]
+		crate::verif::yieldp::yield_point("close.end", 0, 0);
 		let final_manifest = self.inner.level_manifest.read()?;
 		log::info!(
 			"=== LSM tree shutdown complete === log_number={}, last_sequence={}",
